@@ -57,3 +57,53 @@ void h_c07_scope_dot_process_var(void)
     __CPROVER_assert(verif_thrown == (!reg || mname != id), "c07.expr_dot.unknown-process-or-member-is-reported-as-unknown-identifier");
     REACH;
 }
+
+/* ---- part 3: StatementBuilder scopes -------------------------------------------------------------------------------- */
+void w07b_init(int d, int body_level, int nblocks, int blk_level, int type_id);
+void w07b_call(int which, int name);
+void w07b_push_body(void);
+int w07b_depth(void);
+int w07b_top(void);
+int w07b_top_parent(void);
+int w07b_top_nsym(void);
+int w07b_top_sym(int what);
+int w07b_depth0(void);
+int w07b_top0(void);
+int w07b_nblocks(void);
+int w07b_innermost_block_frame(void);
+int w07b_last_stat(int what);
+int w07b_block_count(void);
+
+void h_c07_scope_iteration(void)
+{
+    int d, bl, nb, kl, ty, name;
+    __CPROVER_assume(d >= 1 && d <= 4 && bl >= 0 && bl < d && (nb == 0 || nb == 1) && kl >= 0 && kl < d && ty >= 0 && ty < 400 && name >= 0 && name < 4);
+    w07b_init(d, bl, nb, kl, ty);
+    int depth0 = w07b_depth0(), top0 = w07b_top0(), cnt0 = w07b_block_count();
+    w07b_call(0, name);
+    __CPROVER_assert(w07b_depth() == depth0 + 1, "c07.iteration.begin-opens-one-scope");
+    __CPROVER_assert(w07b_top_parent() == top0, "c07.iteration.the-loop's-scope-is-nested-in-the-INNERMOST-current-scope-(not-in-the-enclosing-block's)");
+    __CPROVER_assert(w07b_top_nsym() == 1 && w07b_top_sym(1) == name && w07b_top_sym(2) == (ty | 1), "c07.iteration.it-declares-exactly-the-loop-variable,-constant");
+    __CPROVER_assert(w07b_block_count() == cnt0 + 1 && w07b_last_stat(0) == 2 && w07b_last_stat(1) == w07b_top() && w07b_last_stat(2) == w07b_top_sym(0),
+                     "c07.iteration.the-loop-statement-keeps-the-scope-and-the-variable");
+    w07b_push_body();
+    w07b_call(1, name);
+    __CPROVER_assert(w07b_depth() == depth0 && w07b_top() == top0, "c07.iteration.end-closes-exactly-the-scope-begin-opened");
+    __CPROVER_assert(w07b_block_count() == cnt0 + 1 && w07b_last_stat(0) == 2 && w07b_last_stat(3), "c07.iteration.the-body-is-attached-to-the-loop");
+    REACH;
+}
+void h_c07_scope_block(void)
+{
+    int d, bl, nb, kl, ty;
+    __CPROVER_assume(d >= 1 && d <= 4 && bl >= 0 && bl < d && (nb == 0 || nb == 1) && kl >= 0 && kl < d && ty >= 0 && ty < 400);
+    w07b_init(d, bl, nb, kl, ty);
+    int depth0 = w07b_depth0(), top0 = w07b_top0(), nb0 = w07b_nblocks(), cnt0 = w07b_block_count();
+    w07b_call(2, 0);
+    __CPROVER_assert(w07b_depth() == depth0 + 1 && w07b_top_parent() == top0, "c07.block.begin-opens-one-scope-nested-in-the-current-one");
+    __CPROVER_assert(w07b_nblocks() == nb0 + 1 && w07b_innermost_block_frame() == w07b_top(), "c07.block.the-new-block-owns-the-new-scope");
+    int inner = w07b_top();
+    w07b_call(3, 0);
+    __CPROVER_assert(w07b_depth() == depth0 && w07b_top() == top0, "c07.block.end-closes-exactly-the-scope-begin-opened");
+    __CPROVER_assert(w07b_nblocks() == nb0 && w07b_block_count() == cnt0 + 1 && w07b_last_stat(0) == 1 && w07b_last_stat(4) == inner, "c07.block.the-finished-block-is-appended-to-the-containing-block");
+    REACH;
+}
